@@ -35,8 +35,10 @@ fn main() {
         "bb_query" => { run = bb::run_query; gen = bb::gen_query; }
         "bb_summary" => { run = bb::run_summary; gen = bb::gen_summary; }
         "bb_zoom" => { run = bb::run_zoom; gen = bb::gen_zoom; }
+        "bb_accept" => { run = bb::run_accept_implies_readback; gen = bb::gen_accept_implies_readback; }
         "fileview" => { run = misc::run_fileview; gen = misc::gen_fileview; }
         "autosql" => { run = misc::run_autosql; gen = misc::gen_autosql; }
+        "nonleaf_at_eof" => { run = misc::run_nonleaf_at_eof; gen = misc::gen_nonleaf_at_eof; }
         _ => { eprintln!("unknown driver {}", driver); std::process::exit(2); }
     }
     match a[2].as_str() {
